@@ -294,3 +294,11 @@ package raft
 // the zero value is no valid operation type, so a missing field never stands for a pin or an unpin
 //@ lemma log_op_types_are_not_the_zero_value: LogOpPin != 0 && LogOpUnpin != 0 && LogOpPin != LogOpUnpin
 //@   property C08 C01
+
+// ---- C18: "shutting a component down while it is in use": the shutdown flag is only read and written with the
+// shutdown lock held, so that concurrent Shutdown calls run the teardown once ----
+//@ guards Consensus.shutdownLock: shutdown
+//@ func (cc *Consensus) Shutdown
+//@   property C18
+//@   opts own
+//@   modifies *
